@@ -88,36 +88,48 @@ def _cutoff_like(func: ast.AST, expr: ast.AST, role: str) -> bool:
     return any(p.split(".")[-1] == role for p in prov)
 
 
+def _anc(node: ast.AST, stop: ast.AST):
+    cur = getattr(node, "_parent", None)
+    while cur is not None and cur is not stop:
+        yield cur
+        cur = getattr(cur, "_parent", None)
+
+
 def r03_2(ctx: Ctx) -> None:
     func = ctx.fn(CP, "find_protoclusters")
-    # wrap merge: the `if` whose test compares a distance call with the cutoff
+    # wrap merge: the statement that joins the last core into the first one must run exactly when distance < cutoff
+    from ..flow import path_facts
+    cfg = CFG(func)
+    merges = [n for n in walk_local(func) if isinstance(n, ast.Assign) and isinstance(n.value, ast.Call)
+              and last_attr(n.value) == "connect_locations" and "last" in txt(n.value) and "first" in txt(n.value)
+              and not any(isinstance(a, (ast.For, ast.While)) and "cds_features" in txt(getattr(a, "iter", getattr(a, "test", None)))
+                          for a in _anc(n, func))]
     found = 0
-    for node in walk_local(func):
-        if not isinstance(node, ast.If):
-            continue
-        dist_calls = [c for c in calls(node.test) if "distance" in last_attr(c)]
-        if not dist_calls:
+    for merge in merges:
+        lits = [(e, t) for e, t in path_facts(cfg, merge) if any("distance" in last_attr(c) for c in calls(e))]
+        if not lits:
             continue
         found += 1
         ctx.call_sites += 1
+        expr, truth = lits[0]
+        dist_calls = [c for c in calls(expr) if "distance" in last_attr(c)]
         mapping = {txt(dist_calls[0]): "D"}
-        cut_names = [n.id for n in ast.walk(node.test) if isinstance(n, ast.Name)
-                     and _cutoff_like(func, n, "cutoff")]
-        for name in cut_names:
-            mapping[name] = "C"
-        for attr in ast.walk(node.test):
-            if isinstance(attr, ast.Attribute) and attr.attr == "cutoff" and dotted(attr):
-                mapping[dotted(attr)] = "C"
+        for n in ast.walk(expr):
+            if isinstance(n, ast.Name) and _cutoff_like(func, n, "cutoff"):
+                mapping[n.id] = "C"
+            if isinstance(n, ast.Attribute) and n.attr == "cutoff" and dotted(n):
+                mapping[dotted(n)] = "C"
+        renamed = rename(expr, mapping)
+        effective = renamed if truth else ast.UnaryOp(op=ast.Not(), operand=renamed)
         try:
-            ok, cex, n = decide(rename(node.test, mapping), parse("D < C"))
-            ctx.ob("R03.2", CP, node, "find_protoclusters", "wrap-merge distance test", ok,
+            ok, cex, n = decide(effective, parse("D < C"))
+            ctx.ob("R03.2", CP, merge, "find_protoclusters", "wrap-merge distance test", ok,
                    "first/last cores are merged across the origin iff distance < cutoff (strict)",
-                   detail=f"counterexample {cex}" if cex else f"{n} orderings enumerated",
-                   form=txt(rename(node.test, mapping)))
+                   detail=f"counterexample {cex}" if cex else f"{n} orderings enumerated", form=txt(effective))
         except OutsideFragment as err:
-            ctx.cannot("R03.2", CP, node, "find_protoclusters", "wrap-merge distance test", str(err))
+            ctx.cannot("R03.2", CP, merge, "find_protoclusters", "wrap-merge distance test", str(err))
     if not found:
-        raise AnalysisError("find_protoclusters: no distance-vs-cutoff test for the first/last wrap merge")
+        raise AnalysisError("find_protoclusters: no distance-vs-cutoff test guards the first/last wrap merge")
     # chain step: overlap test against the previous core extended by exactly the cutoff
     steps = 0
     for call in calls(func):
